@@ -169,6 +169,22 @@ theorem C10_string_sbs_witness :
     strRest ['\'', 'a', '\\', 'S', '\\', '\'', '\'', ',', '$'] = [',', '$'] := by
   decide
 
+/-- **files with several data sections**: after the first `ENDSEC;` the loader tests for `END-ISO-10303-21;` with `needKW`, which
+    consumes the `D` of a following `DATA`, so the test for `DATA` fails as well ("Corrupted file") — no second section is ever
+    entered, whatever follows.  The lazy index is therefore always that of the first data section; the eager reader (observed,
+    corpus `two-data-sections`) stops after the first `ENDSEC;` too, so the two agree on such files. -/
+theorem C10_second_section_never_read (ws rest : Bytes) (hws : ws.all isSpace = true) :
+    nextSection (ws ++ 'D' :: 'A' :: 'T' :: 'A' :: rest) = none ∧
+    nextSection (ws ++ "END-ISO-10303-21;".toList ++ rest) = none := by
+  constructor
+  · unfold nextSection
+    rw [skipWS_ws ws hws 'D' (by decide) _]
+    simp [needKW]
+  · unfold nextSection
+    have : ws ++ "END-ISO-10303-21;".toList ++ rest = ws ++ 'E' :: ("ND-ISO-10303-21;".toList ++ rest) := by simp
+    rw [this, skipWS_ws ws hws 'E' (by decide) _]
+    simp [needKW]
+
 /-- **index = what the file denotes**: ids and keywords (and mentions) of the lazy index are those written in the file -/
 theorem C10_index (is : List RInst) (hok : ∀ i ∈ is, i.Ok) (ws ws' rest : Bytes)
     (hws : ws.all isSpace = true) (hws' : ws'.all isSpace = true) :
